@@ -141,6 +141,13 @@ def write_document(results, use_with, medium='stringio', poison=(), abort=None):
     return buf.getvalue()
 
 
+# names and ids: any Unicode text, and - half of the time - text built from fragments that mean something to JSON itself
+# (separators next to brackets, quotes, backslashes, escapes, literals, line separators): inside a string they mean nothing
+_FRAG = st.sampled_from([',]', ',}', ', ]', ',\n}', '[', ']', '{', '}', ':', ',', '"', '\\', '\\"', '\\u0041', '\\n', '/', '</', 'null', 'true', '-0', '1e5',
+                         '\u2028', '\u2029', '\x7f', '\x00', '\t', '\n', ' ', "'", '\ud7ff', '\U0001f0a1', 'NaN', 'Infinity'])
+JSONISH = st.one_of(st.text(max_size=12), st.lists(st.one_of(_FRAG, st.text(max_size=3)), max_size=5).map(''.join))
+
+
 ABORTS = {'KeyboardInterrupt': KeyboardInterrupt, 'ValueError': ValueError, 'SystemExit': SystemExit, 'GeneratorExit': GeneratorExit}
 
 
@@ -311,7 +318,7 @@ def check_document(results, use_with, stats=None, medium='stringio', poison=(), 
 def fuzz_target(name, stats):
     """(test function, strategies) - shared by the in-process Hypothesis tier and the atheris tier."""
     return (lambda results, use_with, medium, poison, abort: check_document(results, use_with, stats, medium, poison, abort),
-            {'results': st.tuples(st.lists(GB.result(st.text(max_size=12)), min_size=0, max_size=8), st.one_of(st.none(), st.none(), st.integers(0, 7)))
+            {'results': st.tuples(st.lists(GB.result(JSONISH), min_size=0, max_size=8), st.one_of(st.none(), st.none(), st.integers(0, 7)))
                 .map(lambda t: t[0] if t[1] is None or not t[0] else t[0][:t[1] % len(t[0]) + 1] + t[0][t[1] % len(t[0]):]),     # sometimes the same result twice in a row
              'use_with': st.booleans(),
              'medium': st.sampled_from(MEDIA), 'poison': st.one_of(st.just([]), st.just([]), st.lists(st.integers(0, 7), max_size=2)),
